@@ -46,6 +46,10 @@ func Contention(rng *rand.Rand, name string, o ContentionOpts) (*spec.Spec, vpro
 		}
 		pr := &spec.Proc{Name: pn, Kind: kind, Cores: cores,
 			Cmd: spec.BuildCmd(pn, []spec.PortDecl{{Name: "in"}}, []spec.PortDecl{{Name: "out"}}, nil, nil, nil)}
+		if o.Prepend && kind == spec.KCmd && rng.Intn(3) == 0 {
+			// a multi-line command whose first line is a comment documenting the step
+			pr.Cmd = "# step " + pn + ": first line of the command is a comment\n" + pr.Cmd
+		}
 		if o.Prepend && kind == spec.KCmd && rng.Intn(2) == 0 {
 			pr.Prepend = "env VERIF_WRAPPED=" + pn
 		}
